@@ -11,14 +11,20 @@ def sig_of(clause, e):
         return "httpshape=%s,%s,%s%s:%s:status=%s,count=%d,code=%d" % (c["method"], c["idc"] if c["hasId"] else "noid", c["params"], "/json" if c.get("json") else "", clause, e.get("status"), e["count"], e["code"])
     if c["t"] == "batch":
         what = {"BatchNeverFailsConnection": "teardown", "BatchReplyWhenAllAnswered": "no-flush" if not e["flushes"] else "wrong-flush",
-                "BatchReplyComplete": "incomplete", "BatchNoStrayResponses": "stray", "NoCrash": "panic"}.get(clause, clause)
+                "BatchReplyComplete": "incomplete", "BatchNoStrayResponses": "stray", "NoCrash": "panic",
+                "BatchIdsReusable": "id-not-reusable", "BatchInOrder": "out-of-order"}.get(clause, clause)
         return "batch[%s]:%s" % (",".join(c["members"]), what)
     if clause == "ExactlyOneSameId" and e["count"] == 0 and e["otherResp"] == 1:
         return "id-class=%s:altered" % c["idc"]
     return "shape=%s,%s,%s:%s:count=%d,code=%d" % (c["method"], c["idc"] if c["hasId"] else "noid", c["params"], clause, e["count"], e["code"])
 
 
-def run_wire(v, tier, seed, replay_case=None):
+# clauses of the wire monitor that belong to C03 (in-order dispatch); everything else is C02
+ORDER_CLAUSES = {"BatchInOrder"}
+
+
+def run_wire(v, tier, seed, replay_case=None, only_order=False):
+    """only_order: run the batch cases only and report the in-order clause (C03); otherwise everything but that clause (C02)."""
     out = vlib.outdir(v.pid)
     wd = vlib.scratch("tlc-")
     cfg = "Wire_quick.cfg" if tier == "quick" else "Wire_thorough.cfg"
@@ -34,7 +40,9 @@ def run_wire(v, tier, seed, replay_case=None):
         vlib.write_ndjson(cases, [replay_case])
     else:
         os.replace(os.path.join(wd, "cases.ndjson"), cases)
-    if replay_case is None:
+    if replay_case is None and only_order:
+        vlib.write_ndjson(cases, [c for c in vlib.read_ndjson(cases) if c["t"] == "batch"])
+    elif replay_case is None:
         # the streamable HTTP cases run in the same harness pass
         with open(cases, "a") as fh:
             fh.write(open(os.path.join(wd, "httpcases.ndjson")).read())
@@ -52,6 +60,10 @@ def run_wire(v, tier, seed, replay_case=None):
     v.add_tlc("WireMon", mres)
     for f in fails:
         e = rows[f["line"] - 1]
+        if (f["monfail"] in ORDER_CLAUSES) != only_order and f["monfail"] != "NoCrash":
+            v.cov.setdefault("wire_other_property_clauses_failed", {})
+            v.cov["wire_other_property_clauses_failed"][f["monfail"]] = v.cov["wire_other_property_clauses_failed"].get(f["monfail"], 0) + 1
+            continue
         if f["monfail"] == "drift":
             v.drift.append("wire outcome differs from WireDefs!Expected: %s -> %s" % (json.dumps(e["c"]), json.dumps({k: e[k] for k in ("count", "otherResp", "code", "alive", "flushes", "singles")})))
         else:
